@@ -47,6 +47,17 @@ def build(kind, seed):
         t = np.linspace(0.0, 3.0, 1500)
         spec["megacomplex"]["m1"] = {"type": "damped-oscillation", "labels": ["o1", "o2"], "frequencies": ["f1", "f2"], "rates": ["k1", "k2"]}
         pl += [["f1", 120.0], ["f2", 310.0]]
+    elif kind == "multi_group":
+        # several dataset groups: the objective is the concatenation of the group penalties in a fixed order
+        t = np.linspace(0.0, 30.0, 150)
+        spec["megacomplex"]["m1"] = {"type": "decay-parallel", "compartments": ["s1", "s2", "s3"], "rates": ["k1", "k2", "k3"]}
+        names = ["alpha", "beta", "gamma", "delta"]
+        spec["dataset_groups"] = {n: {"residual_function": "variable_projection", "link_clp": None} for n in names}
+        spec["dataset"] = {f"d{i + 1}": {"megacomplex": ["m1"], "group": n} for i, n in enumerate(names)}
+        model = all_builtin_model_class()(**spec)
+        data = {f"d{i + 1}": xr.DataArray(rng.standard_normal((t.size, g.size - i)), coords=[("time", t), ("spectral", g[: g.size - i])]).to_dataset(name="data")
+                for i in range(len(names))}
+        return Scheme(model=model, parameters=Parameters.from_list(pl), data=data, maximum_number_function_evaluations=2, add_svd=False)
     model = all_builtin_model_class()(**spec)
     params = Parameters.from_list(pl)
     data = xr.DataArray(rng.standard_normal((t.size, g.size)), coords=[("time", t), ("spectral", g)]).to_dataset(name="data")
@@ -100,6 +111,7 @@ def main():
             h.update(p.tobytes())
         for p in res.optimized_parameters.all():
             h.update(np.float64(p.value).tobytes())
+        h.update(",".join(res.data.keys()).encode())
         out[kind] = {"hash": h.hexdigest(), "n_eval": len(pens), "first": [float(v) for v in pens[0][:3]], "norm": float(np.linalg.norm(pens[-1]))}
     try:
         layer = numba.threading_layer()
